@@ -138,6 +138,7 @@ def h_arith(cx, T, N, pa, pb, partner, ops, cplx=False, Nb=None):
     Nres = max(N, Nb or N)
     for op in ops:
         f = BINOPS[op]
+        nothing_defined = all(entry(a, t) is None or (partner == 'corr' and pent[t] is None) for t in range(T))
         try:
             res = f(a, b)
         except core.Realize:
@@ -146,6 +147,9 @@ def h_arith(cx, T, N, pa, pb, partner, ops, cplx=False, Nb=None):
             # division by an observable / number with zero central value is rejected by design
             if op in ('div', 'rdiv') and 'zero' in str(e).lower():
                 cx.ok(op + ':rejects-zero-divisor')
+                continue
+            if nothing_defined:
+                cx.ok(op + ':raises-when-no-timeslice-is-defined')
                 continue
             cx.fail('%s[%s]:raises' % (op, partner), '%s: %s' % (type(e).__name__, e))
             continue
